@@ -37,7 +37,9 @@ def gen_history(rng, nops, keys, mix):
     for _ in range(nops):
         k = rng.choices(kinds, weights=mix)[0]
         key = rng.choice(keys)
-        if k == 'put':
+        if k == 'put' and rng.random() < 0.07:     # value (and key) handed in through the table's own pointers (getobj newmem=false)
+            ops.append('putself %s %d:%d:%d' % (hexs(key), rng.choice([0, 0, 1, 2]), rng.choice([-1, -1, 1, 2, 3]), rng.randrange(2)))
+        elif k == 'put':
             ops.append('put %s %s' % (hexs(key), hexs(rand_val(rng))))
         elif k in ('get', 'remove'):
             ops.append('%s %s' % (k, hexs(key)))
